@@ -5,6 +5,8 @@
      bins x pos hex | bcut x off len | bset x tr pos hex | bsetz x tr pos n
      prt x hex | str x | new x len flags | flg x flags | mks s y off len
      wr s nblk esz hex | wrz s nblk esz
+     C++: xcp x y | xclr x | xapp x hex | xins x off hex | xset x hex | xsetz x n | xsets x hex | xasl x s
+          xmks s y | xshf s n | xtrm s n
    prints "M <id> tok..." (mechanism model) and "S <id> tok..." (specification);
    token = res|views|partition|mech  (S: res|views), see harness/c04_array.c *)
 let ni s = nat_of_int (int_of_string s)
@@ -36,6 +38,18 @@ let rec parse toks = match toks with
   | "mks" :: s :: y :: o :: n :: r -> OMkSlice (ni s, ni y, ni o, ni n) :: parse r
   | "wr" :: s :: n :: e :: h :: r -> OWrite (ni s, ni n, ni e, true, bytes_of_hex h) :: parse r
   | "wrz" :: s :: n :: e :: r -> OWrite (ni s, ni n, ni e, false, []) :: parse r
+  (* C++ API (harness/c04_cxx.cpp) *)
+  | "xcp" :: x :: y :: r -> OXAssign (ni x, ni y) :: parse r
+  | "xclr" :: x :: r -> OClone (ni x, None) :: parse r
+  | "xapp" :: x :: h :: r -> OXAppend (ni x, bytes_of_hex h) :: parse r
+  | "xins" :: x :: p :: h :: r -> OInsert (ni x, ni p, bytes_of_hex h) :: parse r
+  | "xset" :: x :: h :: r -> OXSet (ni x, bytes_of_hex h) :: parse r
+  | "xsetz" :: x :: n :: r -> OXSet (ni x, zeros n) :: parse r
+  | "xsets" :: x :: h :: r -> OXSetStr (ni x, bytes_of_hex h) :: parse r
+  | "xasl" :: x :: s :: r -> OXAssignSlice (ni x, ni s) :: parse r
+  | "xmks" :: s :: y :: r -> OXMkSlice (ni s, ni y) :: parse r
+  | "xshf" :: s :: n :: r -> OXShift (ni s, ni n) :: parse r
+  | "xtrm" :: s :: n :: r -> OXTrim (ni s, ni n) :: parse r
   | t :: _ -> failwith ("bad op " ^ t)
 
 let i = int_of_nat
